@@ -100,6 +100,9 @@ var fsForbidden = map[string]bool{
 	"os.Symlink": true, "os.Truncate": true,
 }
 
+var fnSeq int
+var fnNames []string
+
 func main() {
 	if len(os.Args) < 2 {
 		fail("usage: simgen <dir> [stats.json]")
@@ -174,7 +177,7 @@ func main() {
 	if stats["handler"] == 0 {
 		fail("no handler.New(...) registrations found: the dispatcher table moved; handler-entry yields cannot be placed")
 	}
-	rep := map[string]interface{}{"counts": stats, "sites": sites, "map_key_types": mapKeyTypes}
+	rep := map[string]interface{}{"counts": stats, "sites": sites, "map_key_types": mapKeyTypes, "fn_points": fnNames}
 	b, _ := json.MarshalIndent(rep, "", " ")
 	if len(os.Args) > 2 {
 		os.WriteFile(os.Args[2], b, 0644)
@@ -483,6 +486,16 @@ func instrument(c *fileCtx, handlers map[types.Object]bool) {
 		}
 		obj := p.TypesInfo.Defs[fd.Name]
 		if obj == nil || !handlers[obj] {
+			// an optional scheduling point at the entry of every other function of the server
+			// (switched on per run for a small pseudo-random subset of functions, see simrt.FnPoint):
+			// windows between two synchronisation operations become explorable.  Not in the logger
+			// and not in the protocol package (its methods run on the dispatcher's own goroutines).
+			if pp := p.PkgPath; !strings.HasSuffix(pp, "/log") && !strings.HasSuffix(pp, "/protocol") && fd.Name.Name != "init" && !strings.HasPrefix(fd.Name.Name, "Sim") {
+				fnSeq++
+				fnNames = append(fnNames, fmt.Sprintf("%d=%s.%s", fnSeq, p.Name, fd.Name.Name))
+				stats["fnpoint"]++
+				c.open(fd.Body.Lbrace+1, fmt.Sprintf(" simrt.FnPoint(%d); ", fnSeq))
+			}
 			continue
 		}
 		key := `""`
